@@ -56,6 +56,8 @@ def check_model(rep, drv, gen, rng, m, text, c, with_jax, with_c):
         try:
             v1 = pipeline.validate(drv, "rhs", 1, n, [], impl.body_to_sx(fns["rhs"]["body"]))
             v2 = pipeline.validate(drv, "euler", 1, n, [], impl.body_to_sx(fns["explicit_euler"]["body"]))
+            pipeline.check_instance(rep, v1, text, "rhs")
+            pipeline.check_instance(rep, v2, text, "euler")
             if not (v1.get("valid") and v2.get("valid")):
                 structural = (f"explicit_euler / rhs rejected by the verified validator (rhs {v1}, euler {v2})",
                               {"kind": "validator", "relation": "Valid.valid_euler + valid_rhs", "text": text, "code": code,
